@@ -30,6 +30,7 @@ import (
 	"strconv"
 	"strings"
 	"sync"
+	"sync/atomic"
 	"testing"
 	"time"
 
@@ -371,25 +372,18 @@ type vpC18OpResult struct {
 	syncDials int
 	gotConn   bool
 	fresh     bool // conn was dialled by dialConnFor on behalf of a waiter and not used before
-	stuck     string
+	twinWake  int64 // UnixNano at which a control timer armed with the same wait budget fired (0: never)
 }
 
-// vpC18Watch captures the stack of goroutine gid if the op is still running after d (diagnostics
-// for the waiter-deadline oracle: where was the late call blocked?).
-func vpC18Watch(gid int64, d time.Duration, out *string, mu *sync.Mutex) *time.Timer {
-	return time.AfterFunc(d, func() {
-		buf := make([]byte, 1<<20)
-		n := runtime.Stack(buf, true)
-		hdr := "goroutine " + strconv.FormatInt(gid, 10) + " ["
-		for _, g := range strings.Split(string(buf[:n]), "\n\n") {
-			if strings.HasPrefix(g, hdr) {
-				mu.Lock()
-				*out = g
-				mu.Unlock()
-				return
-			}
-		}
-	})
+// vpC18Budget is how long an op may wait for a connection when it does not dial itself.
+func vpC18Budget(wait time.Duration, op vpC18Op) time.Duration {
+	if wait <= 0 {
+		return 0
+	}
+	if rt := time.Duration(op.TimeoutMs) * time.Millisecond; rt > 0 && rt < wait {
+		return rt
+	}
+	return wait
 }
 
 type vpC18Case struct {
@@ -469,8 +463,8 @@ func (c *vpC18Case) run() ([]string, string) {
 						req.SetConnectionClose()
 					}
 					hist.add("w%d Do id=%d timeout=%dms", wi+1, op.ID, op.TimeoutMs)
-					var stuck string
-					wd := vpC18Watch(gid, wait+time.Duration(op.TimeoutMs)*time.Millisecond+vpC18Slack*3/4, &stuck, &rmu)
+					var tw atomic.Int64
+					twin := time.AfterFunc(vpC18Budget(wait, op), func() { tw.Store(time.Now().UnixNano()) })
 					t0 := time.Now()
 					res.t0 = t0
 					if op.TimeoutMs > 0 {
@@ -479,10 +473,8 @@ func (c *vpC18Case) run() ([]string, string) {
 						res.err = hc.Do(req, resp)
 					}
 					res.elapsed = time.Since(t0)
-					wd.Stop()
-					rmu.Lock()
-					res.stuck = stuck
-					rmu.Unlock()
+					twin.Stop()
+					res.twinWake = tw.Load()
 					if res.err == nil {
 						if got := string(resp.Header.Peek("X-Vp-Id")); got != strconv.Itoa(op.ID) || !bytes.Equal(resp.Body(), c.plans[op.ID].Resp.body) {
 							n.mu.Lock()
@@ -495,16 +487,14 @@ func (c *vpC18Case) run() ([]string, string) {
 					ReleaseResponse(resp)
 				case vpC18OpAcquire:
 					hist.add("w%d AcquireConn timeout=%dms", wi+1, op.TimeoutMs)
-					var stuck string
-					wd := vpC18Watch(gid, wait+vpC18Slack*3/4, &stuck, &rmu)
+					var tw atomic.Int64
+					twin := time.AfterFunc(vpC18Budget(wait, op), func() { tw.Store(time.Now().UnixNano()) })
 					t0 := time.Now()
 					res.t0 = t0
 					cc, err := hc.AcquireConn(time.Duration(op.TimeoutMs)*time.Millisecond, op.ConnClose)
 					res.elapsed = time.Since(t0)
-					wd.Stop()
-					rmu.Lock()
-					res.stuck = stuck
-					rmu.Unlock()
+					twin.Stop()
+					res.twinWake = tw.Load()
 					res.err = err
 					if err == nil && cc == nil {
 						res.err = errVPC18NoConn
@@ -597,14 +587,18 @@ func (c *vpC18Case) run() ([]string, string) {
 	// ---- waiters
 	var waiterTimeout, waiterHanded, waiterFresh, waiterDialErr, immediateNoFree int
 	for _, r := range results {
-		budget := time.Duration(0)
-		if wait > 0 {
-			budget = wait
-			if rt := time.Duration(r.op.TimeoutMs) * time.Millisecond; rt > 0 && rt < budget {
-				budget = rt
+		// Lateness counts from the moment a control timer armed with the same budget actually fired
+		// in this process (not fired before the op returned = on time), minus measured starvation.
+		budget := vpC18Budget(wait, r.op)
+		t1 := r.t0.Add(r.elapsed)
+		net := time.Duration(0)
+		if r.twinWake != 0 {
+			ref := r.t0.Add(budget)
+			if t := time.Unix(0, r.twinWake); t.After(ref) {
+				ref = t
 			}
+			net = budget + t1.Sub(ref) - beat.lost(ref, t1)
 		}
-		net := r.elapsed - beat.lost(r.t0, r.t0.Add(r.elapsed))
 		switch r.op.Kind {
 		case vpC18OpAcquire:
 			switch {
@@ -617,7 +611,7 @@ func (c *vpC18Case) run() ([]string, string) {
 				// never dialled itself: it found an idle conn, was refused at once, or waited
 				if net > budget+vpC18Slack {
 					viol = append(viol, fmt.Sprintf("worker %d: AcquireConn(reqTimeout=%dms) with MaxConnWaitTimeout=%dms returned %v after %v (%v net of starvation); wait budget %v + %v slack",
-						r.worker, r.op.TimeoutMs, c.cfg.WaitMs, r.err, r.elapsed, net, budget, vpC18Slack)+"\n    blocked at: "+r.stuck)
+						r.worker, r.op.TimeoutMs, c.cfg.WaitMs, r.err, r.elapsed, net, budget, vpC18Slack))
 				}
 				switch {
 				case r.err == nil && r.fresh:
@@ -637,7 +631,7 @@ func (c *vpC18Case) run() ([]string, string) {
 				// the request never left: it only waited for a connection
 				if net > budget+vpC18Slack {
 					viol = append(viol, fmt.Sprintf("worker %d: Do id=%d (timeout=%dms, MaxConnWaitTimeout=%dms) never got a connection and returned %v only after %v (%v net of starvation); wait budget %v + %v slack",
-						r.worker, r.op.ID, r.op.TimeoutMs, c.cfg.WaitMs, r.err, r.elapsed, net, budget, vpC18Slack)+"\n    blocked at: "+r.stuck)
+						r.worker, r.op.ID, r.op.TimeoutMs, c.cfg.WaitMs, r.err, r.elapsed, net, budget, vpC18Slack))
 				}
 				if wait > 0 {
 					waiterTimeout++
